@@ -5,15 +5,6 @@ pub open spec fn sem_equiv(a: Expression, b: Expression, ids: Ids) -> bool {
     forall|d: DocM| #[trigger] sem3(a, ids, d) == sem3(b, ids, d)
 }
 
-pub assume_specification[ <Expression as Clone>::clone ](e: &Expression) -> (r: Expression)
-    ensures r == *e;
-
-pub uninterp spec fn into_seq<T, I: IntoIterator<Item = T>>(i: I) -> Seq<T>;
-pub broadcast axiom fn axiom_into_seq_vec<T>(v: Vec<T>)
-    ensures #[trigger] into_seq::<T, Vec<T>>(v) == v@;
-pub assume_specification<T, A: std::alloc::Allocator, I: IntoIterator<Item = T>>[ <Vec<T, A> as Extend<T>>::extend::<I> ](v: &mut Vec<T, A>, other: I)
-    ensures final(v)@ == old(v)@ + into_seq::<T, I>(other);
-
 // shape coalesce relies on: all()/of() in a condition name an identifier (that is what the parser produces);
 // anything else under all()/of() is returned unchanged
 pub open spec fn coalesce_ok(e: Expression) -> bool
